@@ -11,13 +11,27 @@ OPNAME = {"ins": "Insert", "del": "Delete", "get": "Get", "iter": "Iter", "seek"
           "cmin": "Cursor.Min", "cmax": "Cursor.Max", "cceil": "Cursor.Ceil", "cfwd": "Cursor.Forward", "cbwd": "Cursor.Backward",
           "diff": "DiffIter", "difflinks": "DiffLinks"}
 
+def jlines(out):
+    """the JSON records of a harness run; anything else on stdout (the library prints diagnostics of its own) is skipped"""
+    recs = []
+    for l in out.decode("latin-1").split("\n"):
+        l = l.strip()
+        if l.startswith("{") and l.endswith("}"):
+            try:
+                d = json.loads(l)
+            except ValueError:
+                continue
+            if isinstance(d, dict):
+                recs.append(d)
+    return recs
+
 def run_mode(eng, mode, text, tag, args=""):
     hp = os.path.join(BUILD, "%s-%s.hist" % (eng.pid, tag))
     open(hp, "w").write(text)
     p = subprocess.run("%s %s %s < %s" % (eng.go_bin, mode, args, hp), shell=True, stdout=subprocess.PIPE, stderr=subprocess.PIPE, timeout=3000)
     if p.returncode:
         raise RuntimeError("mastrun %s failed: %s" % (mode, p.stderr.decode()[-2000:]))
-    return [json.loads(l) for l in p.stdout.decode("latin-1").split("\n") if l.strip().startswith("{")]
+    return jlines(p.stdout)
 
 def fault_fails(recs, texts):
     fails = []
@@ -161,7 +175,7 @@ def run_cmd(eng, args, timeout=3000):
     p = subprocess.run("%s %s" % (eng.go_bin, args), shell=True, stdout=subprocess.PIPE, stderr=subprocess.PIPE, timeout=timeout)
     if p.returncode:
         raise RuntimeError("mastrun %s failed: %s" % (args, p.stderr.decode()[-2000:]))
-    return [json.loads(l) for l in p.stdout.decode("latin-1").split("\n") if l.strip().startswith("{")]
+    return jlines(p.stdout)
 
 def be_fails(recs, engine, args):
     fails = []
@@ -262,7 +276,7 @@ def race_run(eng, text, tag):
     open(hp, "w").write(text)
     env = dict(os.environ, GORACE="halt_on_error=0 exitcode=0")
     p = subprocess.run("%s race < %s" % (binp, hp), shell=True, stdout=subprocess.PIPE, stderr=subprocess.PIPE, timeout=3000, env=env)
-    recs = [json.loads(l) for l in p.stdout.decode("latin-1").split("\n") if l.strip().startswith("{")]   # the library prints diagnostics of its own
+    recs = jlines(p.stdout)
     err = p.stderr.decode("latin-1")
     reports = [b for b in err.split("==================") if "DATA RACE" in b]
     mine = [b for b in reports if "jrhy/mast" in b or "/repo/" in b]
